@@ -208,45 +208,25 @@ theorem C19_shipped_records_ok :
 /-- `Data/Rules/automated_rules.json.gz` is a consistent database -/
 theorem C19_automatedRules_inv : invData shippedTable Generated.automatedRulesRecords = true := by decide +kernel
 
-/-! `rules_manager.json.gz` is **not** consistent as data.  The four theorems below (and
-`C19_witness_remove_leaves_shipped_duplicate` further down) state exactly what holds of the file today; they are witnesses of the data finding `C19-shipped-duplicates`.  Once the two later duplicate records are deleted
-from the JSON they stop elaborating and are to be replaced by the single obligation
-`theorem C19_rulesManager_inv : invData shippedTable Generated.rulesManagerRecords = true := by decide +kernel`. -/
+/-- `rules_manager.json.gz` is a consistent database (since the data fix that removed the duplicate `Cl2/ClCl` and
+`NH3/N` records): every SMILES parses, recorded = derived composition with explicit `Q`, formulas and SMILES pairwise
+distinct. Any duplicate, unparsable SMILES, missing `Q` or wrong composition introduced into the file breaks this. -/
+theorem C19_rulesManager_inv : invData shippedTable Generated.rulesManagerRecords = true := by decide +kernel
 
-/-- as data the invariant is false … -/
-theorem C19_witness_rulesManager_not_inv (T : SymTable) (O : Oracle) :
-    ¬ RDB.Inv T O (Generated.rulesManagerRecords.map entryOf) := by
-  intro h
-  have := h.formulas
-  revert this
-  decide +kernel
-
-/-- … because of exactly these duplicates: formula `Cl2` twice (both `ClCl`), SMILES `N` twice (`H3N` and `NH3`) … -/
-theorem C19_rulesManager_duplicates :
-    dups (Generated.rulesManagerRecords.map (·.formula)) = ["Cl2"] ∧
-    dups (Generated.rulesManagerRecords.map (·.rule.smiles)) = ["ClCl", "N"] := by decide +kernel
-
-/-- … and once the later duplicates are dropped (the records at positions 5 and 31 of the file, `Cl2/ClCl` and `NH3/N`)
-it is consistent.  Any further duplicate, unparsable SMILES, missing `Q` or wrong composition in the file breaks one of
-these. -/
-theorem C19_rulesManager_inv_modulo_duplicates :
-    invData shippedTable (dedupRecords Generated.rulesManagerRecords) = true ∧
-    (dedupRecords Generated.rulesManagerRecords).map (fun r => (r.formula, r.rule.smiles)) =
-      (((Generated.rulesManagerRecords.map fun r => (r.formula, r.rule.smiles)).eraseIdx 31).eraseIdx 5) ∧
-    (Generated.rulesManagerRecords.map fun r => (r.formula, r.rule.smiles))[5]? = some ("Cl2", "ClCl") ∧
-    (Generated.rulesManagerRecords.map fun r => (r.formula, r.rule.smiles))[31]? = some ("NH3", "N") := by
-  decide +kernel
+theorem C19_rulesManager_no_duplicates :
+    dups (Generated.rulesManagerRecords.map (·.formula)) = [] ∧
+    dups (Generated.rulesManagerRecords.map (·.rule.smiles)) = [] := by decide +kernel
 
 /-- replaying the shipped file through an empty manager (`add_entries` of all its records, RDKit answering as recorded in
-the table) keeps exactly the de-duplicated records, in file order, and returns the two later duplicates as rejected -/
+the table) keeps every record, in file order, and rejects nothing -/
 theorem C19_rulesManager_replay :
     (step shippedTable (oracleOf Generated.rulesManagerRecords) []
         (.addEntries (Generated.rulesManagerRecords.map fun r => (r.formula, r.rule.smiles)))).1.map
         (fun e => (e.formula, e.smiles))
-      = (dedupRecords Generated.rulesManagerRecords).map (fun r => (r.formula, r.rule.smiles)) ∧
+      = Generated.rulesManagerRecords.map (fun r => (r.formula, r.rule.smiles)) ∧
     (step shippedTable (oracleOf Generated.rulesManagerRecords) []
         (.addEntries (Generated.rulesManagerRecords.map fun r => (r.formula, r.rule.smiles)))).2.rejected
-      = [("Cl2", "ClCl"), ("NH3", "N")] := by decide +kernel
+      = [] := by decide +kernel
 
 /-! ### what does *not* hold, with witnesses -/
 
@@ -278,13 +258,6 @@ theorem C19_witness_dummy_atom_counted_as_charge :
     (run shippedTable exO [] [.add "CH3*" "*C"]).1 = [⟨"CH3*", "*C", [("Q", 1), ("C", 1), ("H", 3)]⟩] ∧
     totalCharge (exO.atoms "*C") = 0 := by decide +kernel
 
-/-- Without the invariant a removal need not make the formula disappear: in the shipped `rules_manager` database
-`remove_entry("Cl2")` leaves the second `Cl2` record behind. -/
-theorem C19_witness_remove_leaves_shipped_duplicate :
-    ∃ d ∈ (step shippedTable (oracleOf Generated.rulesManagerRecords)
-        (Generated.rulesManagerRecords.map entryOf) (.remove "Cl2")).1, d.formula = "Cl2" :=
-  ⟨⟨"Cl2", "ClCl", [("Q", 0), ("Cl", 2)]⟩, by decide +kernel, rfl⟩
-
 /-! ### non-vacuity -/
 
 /-- a history that exercises every branch: success, duplicate formula, duplicate SMILES, invalid SMILES, bulk add with
@@ -310,11 +283,11 @@ example (ops : List Op) :
         (Generated.automatedRulesRecords.map entryOf) ops).1 :=
   C19_inv_reachable _ _ _ (C19_invData_sound _ _ C19_automatedRules_inv) ops
 
-/-- … and so does the de-duplicated `rules_manager` database -/
+/-- … and so is the shipped `rules_manager` database -/
 example (ops : List Op) :
-    RDB.Inv shippedTable (oracleOf (dedupRecords Generated.rulesManagerRecords))
-      (run shippedTable (oracleOf (dedupRecords Generated.rulesManagerRecords))
-        ((dedupRecords Generated.rulesManagerRecords).map entryOf) ops).1 :=
-  C19_inv_reachable _ _ _ (C19_invData_sound _ _ C19_rulesManager_inv_modulo_duplicates.1) ops
+    RDB.Inv shippedTable (oracleOf Generated.rulesManagerRecords)
+      (run shippedTable (oracleOf Generated.rulesManagerRecords)
+        (Generated.rulesManagerRecords.map entryOf) ops).1 :=
+  C19_inv_reachable _ _ _ (C19_invData_sound _ _ C19_rulesManager_inv) ops
 
 end SynRBL
